@@ -709,6 +709,11 @@ class Array(DaskMethodsMixin):
         from dask_array.slicing import SetItem
 
         value_expr = value.expr if isinstance(value, Array) else value
+        # Index arrays are held by the expression: keep what they are NOW, not the
+        # (mutable) collection objects, so later in-place updates of an index
+        # array do not change this assignment.
+        if isinstance(key, tuple):
+            key = tuple(new_collection(k.expr) if isinstance(k, Array) else k for k in key)
         y = new_collection(SetItem(self.expr, key, value_expr))
         self._replace_expr(y.expr)
 
